@@ -14,8 +14,8 @@ import sys
 import threading
 import time
 
-VERIF = "/verif"
-REPO = "/repo"
+VERIF = os.environ.get("VERIF_ROOT", "/verif")
+REPO = os.environ.get("REPO_ROOT", "/repo")
 WORK = os.path.join(VERIF, ".work")
 RT = os.path.join(WORK, "rt")
 HARNESS = os.path.join(VERIF, "harness")
